@@ -13,6 +13,7 @@ mod tags;
 mod eproj;
 mod model;
 mod sched;
+mod smodel;
 mod util;
 
 use std::time::Duration;
